@@ -243,6 +243,86 @@ theorem score_sum_monotone_new (p : SProfile) (nb : ScoreBallot) (w : Cand)
   apply additive_winner_monotone_new score_additive p nb w ?_ htop h
   intro k hk; exact (score_additive.mem_keys p k).mpr (hsub k hk)
 
+/-! ### score voting with sum aggregation and a numeric `unscored_value` (a ballot that does not score a candidate
+    counts as `u` for it; `valU u b c` is what ballot `b` counts for `c`) -/
+
+/-- **Score-sum with a fill-in value, single ballot improvement**: on one ballot the sole winner `w` gets a score at
+    least as large as what the ballot counted for it before (its old score, or `u` when it was not scored). -/
+theorem score_sum_unscored_monotone_raise (u : Rat) (p : SProfile) (b : ScoreBallot) (w : Cand) (s : Rat)
+    (hp : ScoreProfileOK p) (hb : b ∈ dkeys p) (hs : valU u b w ≤ s)
+    (h : evalScoreSumU u p = [Slot.cand w]) :
+    evalScoreSumU u (replaceUnit p b (raiseScore w s b)) = [Slot.cand w] := by
+  unfold evalScoreSumU at h ⊢
+  have hok := hp b hb
+  have hp' : ScoreProfileOK (replaceUnit p b (raiseScore w s b)) := by
+    intro x hx
+    rcases mem_dkeys_replaceUnit hx with hx | rfl
+    · exact hp x hx
+    · exact scoreBallotOK_raiseScore w s b hok
+  have hn : (keys (scoreSumU u p)).Nodup := by rw [keys_scoreSumU]; exact nodup_scoreSum p
+  have hn' : (keys (scoreSumU u (replaceUnit p b (raiseScore w s b)))).Nodup := by
+    rw [keys_scoreSumU]; exact nodup_scoreSum _
+  have hwd : w ∈ keys (scoreSum p) := by
+    have := h; rw [sole_iff _ hn, soleMax_iff _ hn, keys_scoreSumU] at this; exact this.1
+  have hsub : ∀ c ∈ keys (scoreSum (replaceUnit p b (raiseScore w s b))), c ∈ keys (scoreSum p) := by
+    intro c hc
+    rw [mem_keys_scoreSum] at hc ⊢
+    obtain ⟨x, hx, hcx⟩ := hc
+    rcases mem_dkeys_replaceUnit hx with hx | rfl
+    · exact ⟨x, hx, hcx⟩
+    · rcases (mem_dkeys_raiseScore w s b c).mp hcx with rfl | hcb
+      · exact (mem_keys_scoreSum p c).mp hwd
+      · exact ⟨b, hb, hcb⟩
+  have hw' : w ∈ keys (scoreSum (replaceUnit p b (raiseScore w s b))) :=
+    (mem_keys_scoreSum _ w).mpr ⟨_, new_mem_dkeys_replaceUnit p b _, (mem_dkeys_raiseScore w s b w).mpr (Or.inl rfl)⟩
+  apply additive_sole _ _ hn hn' w ?_ ?_ ?_ h
+  · intro c hc; rw [keys_scoreSumU] at hc ⊢; exact hsub c hc
+  · rw [keys_scoreSumU]; exact hw'
+  · intro c hc hcw
+    rw [keys_scoreSumU] at hc
+    rw [toFun_scoreSumU u _ hp' c hc, toFun_scoreSumU u p hp c (hsub c hc), toFun_scoreSumU u _ hp' w hw',
+      toFun_scoreSumU u p hp w hwd, wsum_replaceUnit _ _ _ _ hb, wsum_replaceUnit _ _ _ _ hb,
+      valU_raiseScore_other u w s b hok c hcw, valU_raiseScore_self u w s b hok]
+    linarith
+
+/-- **Score-sum with a fill-in value, new ballot**: a new ballot (over candidates of the election) that counts for
+    nobody more than for `w`, unscored candidates counting `u`. -/
+theorem score_sum_unscored_monotone_new (u : Rat) (p : SProfile) (nb : ScoreBallot) (w : Cand)
+    (hp : ScoreProfileOK p) (hnb : ScoreBallotOK nb) (hsub : ∀ c ∈ dkeys nb, ∃ b ∈ dkeys p, c ∈ dkeys b)
+    (htop : ∀ y, valU u nb y ≤ valU u nb w)
+    (h : evalScoreSumU u p = [Slot.cand w]) :
+    evalScoreSumU u (addTo p nb 1) = [Slot.cand w] := by
+  unfold evalScoreSumU at h ⊢
+  have hp' : ScoreProfileOK (addTo p nb 1) := by
+    intro x hx
+    rcases (mem_dkeys_addTo p nb 1 x).mp hx with hx | rfl
+    · exact hp x hx
+    · exact hnb
+  have hn : (keys (scoreSumU u p)).Nodup := by rw [keys_scoreSumU]; exact nodup_scoreSum p
+  have hn' : (keys (scoreSumU u (addTo p nb 1))).Nodup := by rw [keys_scoreSumU]; exact nodup_scoreSum _
+  have hwd : w ∈ keys (scoreSum p) := by
+    have := h; rw [sole_iff _ hn, soleMax_iff _ hn, keys_scoreSumU] at this; exact this.1
+  have hsub' : ∀ c ∈ keys (scoreSum (addTo p nb 1)), c ∈ keys (scoreSum p) := by
+    intro c hc
+    rw [mem_keys_scoreSum] at hc ⊢
+    obtain ⟨x, hx, hcx⟩ := hc
+    rcases (mem_dkeys_addTo p nb 1 x).mp hx with hx | rfl
+    · exact ⟨x, hx, hcx⟩
+    · exact hsub c hcx
+  have hw' : w ∈ keys (scoreSum (addTo p nb 1)) := by
+    rw [mem_keys_scoreSum] at hwd ⊢
+    obtain ⟨x, hx, hwx⟩ := hwd
+    exact ⟨x, (mem_dkeys_addTo p nb 1 x).mpr (Or.inl hx), hwx⟩
+  apply additive_sole _ _ hn hn' w ?_ ?_ ?_ h
+  · intro c hc; rw [keys_scoreSumU] at hc ⊢; exact hsub' c hc
+  · rw [keys_scoreSumU]; exact hw'
+  · intro c hc _
+    rw [keys_scoreSumU] at hc
+    rw [toFun_scoreSumU u _ hp' c hc, toFun_scoreSumU u p hp c (hsub' c hc), toFun_scoreSumU u _ hp' w hw',
+      toFun_scoreSumU u p hp w hwd, wsum_addTo, wsum_addTo]
+    have := htop c
+    linarith
+
 /-! ### Bucklin (`PreferenceAddition()`; shared ranks counted in full, i.e. `split_equal_rankings=False`, which
     coincides with the default on profiles without shared ranks) -/
 
@@ -464,6 +544,15 @@ example : evalScoreSum exScore = [Slot.cand 0] ∧ ScoreBallotOK [(1, 3), (2, 2)
   unfold ScoreBallotOK; decide +kernel
 
 example : evalPlurality [(0, 5), (1, 3), (2, 4)] = [Slot.cand 0] := by decide +kernel
+
+/-- unscored_value = 5: W = 0 has 9 + 4 + 4 + 5 = 22, X = 1 has 7 + 6 + 3 + 4 = 20; the second voter raises W from 4 to
+    exactly the fill-in value 5 -/
+def exUnscored : SProfile := [([(0, 9), (1, 7)], 1), ([(0, 4), (1, 6)], 1), ([(0, 4), (1, 3)], 1), ([(1, 4)], 1)]
+example : evalScoreSumU 5 exUnscored = [Slot.cand 0] ∧ scoreSumU 5 exUnscored = [(0, 22), (1, 20)] := by decide +kernel
+example : ScoreProfileOK exUnscored := by unfold ScoreProfileOK ScoreBallotOK; decide +kernel
+example : valU 5 [(0, 4), (1, 6)] 0 ≤ 5 ∧
+    scoreSumU 5 (replaceUnit exUnscored [(0, 4), (1, 6)] (raiseScore 0 5 [(0, 4), (1, 6)])) = [(0, 23), (1, 20)] := by
+  decide +kernel
 
 /-- the pairwise matrix of the witness of fix 20ca103 and of its perturbation (c = 0 lifted to the top of (a,d,b,c)) -/
 def exBase : RProfile :=
